@@ -103,12 +103,15 @@ class FIXContainer:
 
     @staticmethod
     def _check_tag(tag: str | int | FTag) -> str:
-        try:
-            # tag also might be an FTag enum (so cast to str first)
-            int(str(tag))
-        except ValueError:
+        # tag also might be an FTag enum (so cast to str first)
+        tag_str = str(tag)
+        if not (tag_str.isascii() and tag_str.isdigit()):
+            # int() is too tolerant: ' 58', '+58', '5_8', non ASCII digits
             raise FIXMessageError("Tags must be only integers")
-        return str(tag)
+        if tag_str[0] == "0" and len(tag_str) < 19:
+            # the same tag written with leading zeros
+            tag_str = str(int(tag_str))
+        return tag_str
 
     def get(self, tag: str | int | FTag, default=TagNotFoundError) -> str:
         """Get tag value.
